@@ -29,7 +29,7 @@ TEXT["C09"] = {
     "level": "Kernel-checked for every record length and bit pattern: decode(encode bits ++ rest) = (bits, rest) for 01, b8 and r8 (incl. the 255-run split); every decoder (01, b8, r8, hits, dets), on "
              "arbitrary bytes, accepts only records of exactly n bits (no index >= n is ever produced). Correspondence under ASan+UBSan: writer bytes = Lean reference encoders for all six formats; four reader "
              "entry points x three widths = Lean decoders on valid, mutated, truncated and random input.",
-    "note": COMMON_NOTE + "hits/dets/ptb64 round trips are validated by correspondence, not yet by theorem (partial). `stim convert` is driven in-process (sizes from --bits_per_shot, explicit counts, --dem, --circuit/--types; --obs_out; all format pairs it accepts): its output bytes must be the Lean encoding of the input bits.",
+    "note": COMMON_NOTE + "Round trips of all six formats are theorems (rt_01, rt_b8, rt_r8, rt_hits, rt_dets, rt_ptb64_group; whole files: C09c.rt_file); C09d.decDetsBody_sound: whatever dets text the decoder accepts consists of indices below the length of the section their prefix names, every decoded position inside the record. `stim convert` is driven in-process (sizes from --bits_per_shot, explicit counts, --dem, --circuit/--types; --obs_out; all format pairs it accepts): its output bytes must be the Lean encoding of the input bits.",
     "technique": "Lean 4 theorems (induction over codec state) + model-equality correspondence under sanitizers",
 }
 TEXT["C20"] = {
@@ -84,7 +84,7 @@ TEXT["C08"] = {
              "executor in exact rational arithmetic; print/parse round trip exact on doubles with full mantissas. Byte level: printed targets (D#, L# below 2^60, ^), tags of arbitrary bytes and unsigned numbers "
              "read back exactly (theorems); the Lean printer produces byte-for-byte what str() prints and the Lean parser makes the same accept/reject decision and builds the same model as the implementation on "
              "printed models, edited texts, documented violations, truncated texts and random bytes.",
-    "note": COMMON_NOTE + "One genuine defect fixed at byte level (byte 0xFF read as end of input by the string entry point).",
+    "note": COMMON_NOTE + "One genuine defect fixed at byte level (byte 0xFF read as end of input by the string entry point). Proved at byte level: targets, target lists, whole instruction lines (C08d.dem_line_round_trip) and whole model files with nested repeat blocks read back as exactly the same tree (C08d.dem_round_trip); arguments enter through the explicit hypothesis ArgsReadBack (19-digit printer / literal reader pair: by correspondence).",
     "technique": "Lean 4 theorems (mutual induction over the model AST; token round trips) + model-equality correspondence (exact rationals; byte-level printer/parser)",
 }
 TEXT["C10"] = {
@@ -154,7 +154,7 @@ TEXT["C07"] = {
     "level": "Kernel-checked: in the byte-level model of the format, tags made of arbitrary bytes survive escape -> read exactly and the escaped form contains no raw ']' / LF / CR; printed unsigned numbers read back "
              "exactly below the reader's limit. Correspondence (equality): the Lean printer produces byte-for-byte what Circuit::str() prints (incl. %g formatting of arguments) and the Lean parser makes the "
              "same accept/reject decision and builds the same circuit as the implementation on printed circuits, edited texts, documented violations, truncated texts and random bytes.",
-    "note": COMMON_NOTE + "One genuine defect fixed (string entry points read byte 0xFF as end of input). Proved: tags, unsigned numbers, every target form, and whole target lists of any length through the parser's target loop (C07c.targets_round_trip); the parse-after-print statement for whole instructions (name lookup, arguments at six digits, validation, fusion) is established by correspondence.",
-    "technique": "Lean 4 theorems (tag and number round trips) + equality correspondence with a byte-level printer/parser model",
+    "note": COMMON_NOTE + "One genuine defect fixed (string entry points read byte 0xFF as end of input). Proved: tags, unsigned numbers, every target form, whole target lists of any length (C07c.targets_round_trip), whole instruction lines for every gate of the regenerated table (C07d.instr_round_trip), and whole files with REPEAT blocks nested to any depth: the printed text is read back by the file parser as exactly the program after the documented fusion (C07f.block_round_trip; the parser's fuel is proved sufficient); a program without adjacent fusable instructions reads back as exactly itself, and fusion always yields such a program and is idempotent (C07g.exact_round_trip, fusedOps_fuseList, fuseList_idem); white space and comment lines between top-level operations never change the parsed program (C07h.dead_text_ignored). Parenthesised arguments enter these theorems through the explicit hypothesis ArgsReadBack (the printed argument list reads back as itself; proved for instances by kernel evaluation); the %g printer / literal reader pair itself is established by correspondence.",
+    "technique": "Lean 4 theorems (token, line and whole-file round trips incl. nested blocks and fusion) + equality correspondence with a byte-level printer/parser model",
 }
 NOT_CLAIMED = {}
